@@ -704,6 +704,7 @@ func (s *scope) createInstance(descriptor *Descriptor) (any, error) {
 
 		// Find the primary service to return
 		var primaryService any
+		var stored []any
 		for _, reg := range registrations {
 			value := reg.Value
 
@@ -744,7 +745,7 @@ func (s *scope) createInstance(descriptor *Descriptor) (any, error) {
 				Group: regDescriptor.Group,
 			}
 
-			s.setInstance(regDescriptor, key, value)
+			stored = s.storeOutput(regDescriptor, key, value, stored)
 		}
 
 		if primaryService == nil {
@@ -769,6 +770,7 @@ func (s *scope) createInstance(descriptor *Descriptor) (any, error) {
 			}
 		}
 
+		var stored []any
 		for _, ret := range info.Returns {
 			if ret.IsError {
 				continue
@@ -802,7 +804,7 @@ func (s *scope) createInstance(descriptor *Descriptor) (any, error) {
 				Group: serviceDescriptor.Group,
 			}
 
-			s.setInstance(serviceDescriptor, key, value)
+			stored = s.storeOutput(serviceDescriptor, key, value, stored)
 		}
 
 		return results[descriptor.MultiReturnIndex].Interface(), nil
@@ -818,6 +820,27 @@ func (s *scope) createInstance(descriptor *Descriptor) (any, error) {
 
 	s.setAliasedInstance(descriptor, instance)
 	return instance, nil
+}
+
+// storeOutput stores one output of a constructor with several outputs and returns the objects stored so far. An object
+// that the same invocation has already returned under another output (typically its concrete type and an interface it
+// implements) is one instance: it is cached under this identity as well, but tracked for disposal only once.
+func (s *scope) storeOutput(descriptor *Descriptor, key instanceKey, value any, stored []any) []any {
+	for _, earlier := range stored {
+		if sameObject(earlier, value) {
+			s.cacheInstance(descriptor, key, value)
+			return stored
+		}
+	}
+
+	s.setInstance(descriptor, key, value)
+	return append(stored, value)
+}
+
+// sameObject reports whether two outputs are one and the same object: identical pointers of one type.
+func sameObject(a, b any) bool {
+	t := reflect.TypeOf(a)
+	return t != nil && t.Kind() == reflect.Pointer && t == reflect.TypeOf(b) && a == b
 }
 
 // producedFor returns the value a result object carries for the registration that is being resolved, or nil when the
